@@ -88,7 +88,7 @@ Fixpoint item_cty (t : rty) : cty :=
   end.
 
 (* ConstTyTransformer (middle/ty.rs 436-499): string / faststr -> Str, vec -> Array, set / map -> StaticRef of the
-   container over dyn_codegen_item_ty (Array -> Vec at the top of the component) *)
+   container, each over dyn_codegen_item_ty of the component (Array -> Vec at the top of the component) *)
 Definition undyn (c : cty) : cty := match c with CArray i => CVec i | _ => c end.
 Fixpoint const_cty (t : rty) : cty :=
   match t with
@@ -97,7 +97,7 @@ Fixpoint const_cty (t : rty) : cty :=
   | RBytesVec => CVec CU8 | RBytes => CBytes
   | RI8 => CI8 | RI16 => CI16 | RI32 => CI32 | RI64 => CI64 | RF64 => CF64 | ROrderedF64 => COrderedF64
   | RUuid => CUuid
-  | RVec a => CArray (const_cty a)
+  | RVec a => CArray (undyn (const_cty a))        (* only the outermost list of a const is an array *)
   | RSet a => CStaticRef (CSet (undyn (const_cty a)))
   | RBTreeSet a => CStaticRef (CBTreeSet (undyn (const_cty a)))
   | RMap a b => CStaticRef (CMap (undyn (const_cty a)) (undyn (const_cty b)))
@@ -300,6 +300,7 @@ Section Model.
     | CBool => Some CPBool | CI8 => Some CPI8 | CI16 => Some CPI16 | CI32 => Some CPI32 | CI64 => Some CPI64
     | CF32 => Some CPF32 | CF64 => Some CPF64 | COrderedF64 => Some CPOrderedF64 | CUuid => Some CPUuid | CBytes => Some CPBytes
     | CLazyStaticRef (CMap _ _) | CLazyStaticRef (CBTreeMap _ _) => Some CPLazyMap
+    | CStaticRef (CSet _) | CStaticRef (CBTreeSet _) | CStaticRef (CMap _ _) | CStaticRef (CBTreeMap _ _) => Some CPStaticRefColl
     | CLazyStaticRef _ => Some CPLazyStaticRef | CStaticRef _ => Some CPStaticRef | CVec _ => Some CPVec
     | CArray _ => Some CPArray | CSet _ => Some CPSet | CBTreeSet _ => Some CPBTreeSet | CMap _ _ => Some CPMap
     | CBTreeMap _ _ => Some CPBTreeMap | CArc _ => Some CPArc
@@ -497,7 +498,7 @@ Section Model.
               let i := select lit_into_ty_arms (lkind l) ck in
               let fl := flag_of lit_into_ty_arms i in
               match i with
-              | 1%nat | 2%nat | 3%nat | 22%nat =>           (* (String, Str | String | FastStr | Bytes) *)
+              | 1%nat | 2%nat | 3%nat | 23%nat =>           (* (String, Str | String | FastStr | Bytes) *)
                   match l with
                   | LString s => let+ v := string_value s in LOk (v, fl true)
                   | _ => LPanic PUnexpectedLiteral
@@ -549,7 +550,22 @@ Section Model.
                   | LMap _, _ => LPanic PInvalidMapType
                   | _, _ => LPanic PUnexpectedLiteral
                   end
-              | 16%nat =>                                   (* (List, Array): elements through lit_into_ty *)
+              | 16%nat =>                                   (* (List, StaticRef(set | map)): def_lit("INNER", lit, LazyStaticRef(inner)) ->
+                                                               lit_as_rvalue: `[]` for a map (assert!(l.is_empty())), else the set *)
+                  match l, ty' with
+                  | LList els, CStaticRef (CSet t) | LList els, CStaticRef (CBTreeSet t) =>
+                      let+ xs :=
+                        (fix go (els : list lit) : lres (list (gval * bool)) :=
+                           match els with
+                           | [] => LOk []
+                           | x :: r => let+ a := lower true x t in let+ b := go r in LOk (a :: b)
+                           end) els in
+                      LOk (GSet (map fst xs), fl false)
+                  | LList [], CStaticRef (CMap _ _) | LList [], CStaticRef (CBTreeMap _ _) => LOk (GMap [], fl false)
+                  | LList (_ :: _), CStaticRef (CMap _ _) | LList (_ :: _), CStaticRef (CBTreeMap _ _) => LPanic PAssertEmpty
+                  | _, _ => LPanic PUnexpectedLiteral
+                  end
+              | 17%nat =>                                   (* (List, Array): elements through lit_into_ty *)
                   match l, ty' with
                   | LList els, CArray inner =>
                       let+ xs :=
@@ -561,7 +577,7 @@ Section Model.
                       LOk (GList (map fst xs), fl (const_flag xs))
                   | _, _ => LPanic PUnexpectedLiteral
                   end
-              | 17%nat | 18%nat | 19%nat =>                 (* (List, Vec | Set | BTreeSet): list_stream, elements through lit_as_rvalue *)
+              | 18%nat | 19%nat | 20%nat =>                 (* (List, Vec | Set | BTreeSet): list_stream, elements through lit_as_rvalue *)
                   match l with
                   | LList els =>
                       match (match ty' with CVec t | CSet t | CBTreeSet t => Some t | _ => None end) with
@@ -578,15 +594,15 @@ Section Model.
                       end
                   | _ => LPanic PUnexpectedLiteral
                   end
-              | 20%nat => match l with LBool b => LOk (GBool b, fl true) | _ => LPanic PUnexpectedLiteral end
-              | 21%nat =>                                   (* (Int, Bool): `let b = *i <op> <n>` *)
+              | 21%nat => match l with LBool b => LOk (GBool b, fl true) | _ => LPanic PUnexpectedLiteral end
+              | 22%nat =>                                   (* (Int, Bool): `let b = *i <op> <n>` *)
                   match l with
                   | LInt z =>
                       let '(ne, n) := int_bool_test in
                       LOk (GBool (if ne then negb (z =? n) else (z =? n)), fl true)
                   | _ => LPanic PUnexpectedLiteral
                   end
-              | 23%nat =>                                   (* (Map, Adt Struct): a struct literal *)
+              | 24%nat =>                                   (* (Map, Adt Struct): a struct literal *)
                   match l, ty' with
                   | LMap m, CAdt n =>
                       match item n with
@@ -627,7 +643,7 @@ Section Model.
                       end
                   | _, _ => LPanic PUnexpectedLiteral
                   end
-              | _ => LPanic PUnexpectedLiteral              (* 0 (Path) is handled above; 24 = the fall-through *)
+              | _ => LPanic PUnexpectedLiteral              (* 0 (Path) is handled above; 25 = the fall-through *)
               end
               end
           end
